@@ -77,6 +77,7 @@ inline Plan Gen(uint64_t seed)
       {
          // departure, however caused: clean close, cut after an arbitrary byte prefix (often right after sending, so the cut lands inside a command), reset on write
          const uint32_t how = wl.below(10);
+         if (((how < 2)||(how >= 8))&&(!inBatch)&&(wl.oneIn(4))) p.push_back("send " + I(c) + " param !Dsub 1");   /* a subscriber that pauses its subscriptions and then leaves: its marks must go all the same (only before an immediate departure: a paused client's mirror is, legitimately, stale) */
          if (how < 2) p.push_back("close " + I(c));
          else if (how < 8) {if (wl.pct(70)) p.push_back("send " + I(c) + " " + SetDataCmd(g, wl)); if (wl.oneIn(3)) p.push_back("send " + I(c) + " " + SetDataCmd(g, wl)); p.push_back("cut " + I(c) + " " + U(wl.below(wl.oneIn(2) ? 120 : 4000)));}
          else p.push_back("reset " + I(c));
